@@ -20,8 +20,8 @@ RULE = ('per configuration (3 protocols x {server-auth, mutual}): an honest base
 ASSUMPTIONS = ['faults placed after the receiver\'s last handshake read (duplicate of / injection after the final record of '
                'a direction) cannot be noticed by that handshake in any TLS implementation: for those the verdict is the '
                'second clause only (the next tls_recv must not deliver data)',
-               'record-header and ChangeCipherSpec bit flips are executed and counted but informational (not bytes of a '
-               'handshake message)']
+               'record-header bit flips are executed and counted but informational (not bytes of a '
+               'handshake message); the payload octet of ChangeCipherSpec is judged']
 STALL_S = 300
 SHIM_T13 = True
 
@@ -158,6 +158,13 @@ def u_flips(ctx, u):
             continue
         # handshake bytes: type 22 records, and for TLS 1.3 the encrypted flights (outer type 23) too
         is_hs = rec[0] == T.REC_HANDSHAKE or (proto == T.TLS13 and rec[0] == T.REC_APPDATA)
+        if rec[0] == T.REC_CCS and proto != T.TLS13:
+            # the one payload octet of ChangeCipherSpec is part of the handshake flight but covered by neither the transcript
+            # hash nor a MAC: its value test is all that protects it.  All eight bits, judged (the quantifier ranges over every
+            # record index and payload offset)
+            for b in range(8):
+                plan_.append((idx, 0, 1 << b, True, rec[0]))
+            continue
         if u['per_record'] and rec[0] == T.REC_HANDSHAKE:
             # plaintext handshake messages: every byte (one bit each) - bytes the receiving parser ignores are protected
             # by the transcript hash alone, and sampling would have to hit them by chance
